@@ -373,6 +373,13 @@ CORPUS = [
     # FX-C12-df640b6: suffix-aware trie, bracketed literals whose text ends with a public suffix (one stem each)
     {"kind": "history", "cfg": CONFIGS[1], "ops": [["set", "http://[v1.a.com]/x", 1], ["set", "http://[::1%a.co.uk]", 2], ["set", "http://a.com", 3]],
      "qs": ["http://[v1.a.com]/x/y", "http://[v1.a.com]", "http://[::1%a.co.uk]/p", "http://b.a.com", "http://co.uk"], "ql": []},
+    # suffix-aware tries over hosts under a wildcard rule and its exception rule of the public suffix list
+    # (*.kawasaki.jp / !city.kawasaki.jp, *.ck / !www.ck): the excepted host, its parent, children, siblings
+    # (the universe had no such host; see design.d/C13.md, seeded change C13-4)
+    {"kind": "history", "cfg": CONFIGS[1], "ops": [["set", "http://city.kawasaki.jp", 1], ["set", "http://kawasaki.jp", 2], ["set", "http://x.kawasaki.jp", 3], ["set", "http://www.ck/a", 4]],
+     "qs": ["http://www.city.kawasaki.jp/x", "http://city.kawasaki.jp/x", "http://a.x.kawasaki.jp", "http://y.kawasaki.jp", "http://kawasaki.jp/p", "http://shop.www.ck/a/b", "http://www.ck", "http://a.ck/a"], "ql": []},
+    {"kind": "history", "cfg": CONFIGS[7], "ops": [["set", "http://city.kawasaki.jp", 1], ["set", "http://x.kawasaki.jp", 2], ["set", "http://shop.www.ck", 3]],
+     "qs": ["http://www.city.kawasaki.jp/x", "http://m.city.kawasaki.jp", "http://a.x.kawasaki.jp/y", "http://shop.www.ck/z", "http://www.ck"], "ql": []},
 ]
 
 
